@@ -169,7 +169,14 @@ func (h *BMPPeerHeader) Serialize() ([]byte, error) {
 	binary.BigEndian.PutUint32(buf[26:30], h.PeerAS)
 	copy(buf[30:34], h.PeerBGPID.AsSlice())
 	t1, t2 := math.Modf(h.Timestamp)
-	t2 = math.Ceil(t2 * math.Pow10(6))
+	// Round to the nearest microsecond: the float64 holds the fraction with
+	// about 0.1 us of noise, so rounding up would add a microsecond to
+	// roughly every other value.
+	t2 = math.Round(t2 * math.Pow10(6))
+	if t2 >= math.Pow10(6) {
+		t1++
+		t2 -= math.Pow10(6)
+	}
 	binary.BigEndian.PutUint32(buf[34:38], uint32(t1))
 	binary.BigEndian.PutUint32(buf[38:42], uint32(t2))
 	return buf, nil
